@@ -73,14 +73,22 @@ def requires_case(arg):
         open(os.path.join(src, 'f.c'), 'w').write('int f;\n')
         open(os.path.join(src, 'build.bfg'), 'w').write(
             "project('p', version='1.0')\n"
-            "lib = static_library('foo', ['f.c'])\n"
+            "lib = static_library('foo', ['f.c']%s)\n"
             "pkg_config('mypkg', version='1.0', libs=[lib], %s)\n" % (
+                # 'auto': the first specifier comes with a package the
+                # library itself uses, the rest is an explicit requirement
+                ", packages=[package('dep', %r)]" % spec_str(s[:1])
+                if field == 'auto' else '',
                 "requires=[('dep', %r)]" % spec_str(s)
                 if field == 'requires' else
                 "requires_private=[('dep', %r)]" % spec_str(s)
                 if field == 'requires_private' else
                 "requires=[('dep', %r)], requires_private=[('dep', %r)]" % (
                     spec_str(s[:1]), spec_str(s[1:])) if field == 'both' else
+                # (auto_fill=True: bfg9000 does not look its own package up
+                # afterwards, so only the combined specifiers can object)
+                "auto_fill=True, requires=[('dep', %r)]" % spec_str(s[1:])
+                if field == 'auto' else
                 "requires=['dep'], conflicts=[('dep', %r)]" % spec_str(s)))
 
         def dep(v):
@@ -92,6 +100,7 @@ def requires_case(arg):
         dep(vstr(ok[0]) if ok else '1')
         env = tool_env({'CC': os.path.join(BIN, 'stubcc'),
                         'AR': os.path.join(BIN, 'stubar'),
+                        'MOPACK': os.path.join(BIN, 'mopack-stub'),
                         'PKG_CONFIG_PATH': pc})
         bld = os.path.join(root, 'build')
         rc, out = run(['/venv/bin/bfg9000', 'configure', bld,
@@ -393,6 +402,8 @@ def main(argv):
                                                        ck.quick else 400))
              if x or fld != 'conflicts']
     rjobs += [(x, 'both') for x in sets2 if len(x) == 2][:25 if ck.quick
+                                                        else 400]
+    rjobs += [(x, 'auto') for x in sets2 if len(x) == 2][:25 if ck.quick
                                                         else 400]
     req = pmap(requires_case, rjobs)
     fl = pmap(flags_case, flag_cases(ck)) + pmap(shape_case, shape_cases())
